@@ -22,6 +22,10 @@ Definition pc_wf (c : cfg) (lp : loop) : Prop :=
   | _ => True
   end.
 
+(* the frame decided for a request / probe in flight *)
+Definition reply_of (c : cfg) (p : arp_pkt) : frame :=
+  if sp_is_probe p then probe_reject c p else spoof_reply c p.
+
 Record sim (c : cfg) (s : state) (sp : sp_state) : Prop := mkSim {
   sim_hunt : forall m, hunted s m = mem m (sp_hunted sp);
   sim_offer : forall m, offer_of m (offers s) = sp_offer m (sp_hist sp);
@@ -29,7 +33,7 @@ Record sim (c : cfg) (s : state) (sp : sp_state) : Prop := mkSim {
   sim_fail : sp_failing sp = false -> failn s = O;
   sim_loops : map loop_view (loops s) = sp_loops sp;
   sim_wf : forall i lp, nth_error (loops s) i = Some lp -> pc_wf c lp;
-  sim_rxq : rxq s = map (spoof_reply c) (sp_rxq sp)
+  sim_rxq : rxq s = map (reply_of c) (sp_rxq sp)
 }.
 
 Lemma mem_filter_neq x m l : mem x (filter (fun y => negb (y =? m)) l) = negb (x =? m) && mem x l.
@@ -147,26 +151,23 @@ Lemma sp_rx_ok c s sp p :
   sim c s sp ->
   exists sp', sp_rx c sp p (snd (step c s (RxArp p))) = (sp', []) /\
     (sp' = sp \/ sp' = sp_set_rxq (sp_rxq sp ++ [p]) sp) /\
-    rxq (fst (step c s (RxArp p))) = map (spoof_reply c) (sp_rxq sp').
+    rxq (fst (step c s (RxArp p))) = map (reply_of c) (sp_rxq sp').
 Proof.
   intros R. rewrite rx_spec. unfold rx_answer, sp_rx.
   pose proof (sim_closed _ _ _ R) as Hcl. pose proof (sim_rxq _ _ _ R) as Hq.
   destruct (closed s); rewrite <- Hcl; [exists sp; simpl; auto|].
   unfold sp_probe_reject_due. rewrite <- (sim_offer _ _ _ R), <- (sim_hunt _ _ _ R).
-  destruct (sp_is_probe p).
+  destruct (sp_is_probe p) eqn:Hp.
   - destruct (sp_reject_cond c (offer_of (psmac p) (offers s)) p); [|exists sp; simpl; auto].
-    exists sp. split.
-    + f_equal. destruct (out_cases s (probe_reject c p)) as [E|[E F]]; rewrite E.
-      * unfold sp_is_reply_to, probe_reject. simpl. rewrite !N.eqb_refl. reflexivity.
-      * rewrite (failing_of_failn c s sp R F). reflexivity.
-    + split; auto. destruct (wr2_aux s (probe_reject c p)) as [Q _]. rewrite Q. exact Hq.
+    eexists. split; [reflexivity|]. split; [right; reflexivity|]. simpl.
+    rewrite map_app. simpl. rewrite Hq. f_equal. unfold reply_of. rewrite Hp. reflexivity.
   - destruct (sp_asks_router c p && hunted s (psmac p)); [|exists sp; simpl; auto].
     eexists. split; [reflexivity|]. split; [right; reflexivity|]. simpl.
-    rewrite map_app. simpl. rewrite Hq. reflexivity.
+    rewrite map_app. simpl. rewrite Hq. f_equal. unfold reply_of. rewrite Hp. reflexivity.
 Qed.
 
 Lemma sim_queue c s sp q q' :
-  sim c s sp -> q = map (spoof_reply c) q' -> sim c (set_rxq s q) (sp_set_rxq q' sp).
+  sim c s sp -> q = map (reply_of c) q' -> sim c (set_rxq s q) (sp_set_rxq q' sp).
 Proof. intros R H. constructor; simpl; try apply R. exact H. Qed.
 
 (* events that change nothing the monitor tracks except possibly consuming refused writes *)
@@ -210,7 +211,7 @@ Lemma sim_core c s s' sp sp' :
   (failn s = O -> failn s' = O) ->
   sp_hunted sp' = sp_hunted sp -> sp_hist sp' = sp_hist sp -> sp_closed sp' = sp_closed sp ->
   sp_failing sp' = sp_failing sp -> sp_loops sp' = sp_loops sp ->
-  rxq s' = map (spoof_reply c) (sp_rxq sp') -> sim c s' sp'.
+  rxq s' = map (reply_of c) (sp_rxq sp') -> sim c s' sp'.
 Proof.
   intros R H1 H2 H3 H4 H5 G1 G2 G3 G4 G5 H6. constructor.
   - intros m. unfold hunted. rewrite H1, G1. apply (sim_hunt _ _ _ R).
@@ -223,10 +224,7 @@ Proof.
 Qed.
 
 Lemma rx_arp_failn0 c s p : failn s = O -> failn (fst (rx_arp c s p)) = O.
-Proof.
-  intros F. destruct (rx_arp_cases c s p) as [E|[[_ [_ [_ E]]]|[_ [_ E]]]]; rewrite E; simpl; auto.
-  apply wr2_failn0; auto.
-Qed.
+Proof. intros F. rewrite rx_arp_failn. exact F. Qed.
 
 Lemma sim_rx c s sp p :
   sim c s sp ->
@@ -347,16 +345,16 @@ Proof.
     simpl in Hs. unfold sp_step.
     pose proof (sim_rxq _ _ _ R) as Hq.
     destruct (nth_error (sp_rxq sp) k) as [p|] eqn:Hk.
-    + assert (Hk' : nth_error (rxq s) k = Some (spoof_reply c p)) by (rewrite Hq, nth_error_map, Hk; reflexivity).
+    + assert (Hk' : nth_error (rxq s) k = Some (reply_of c p)) by (rewrite Hq, nth_error_map, Hk; reflexivity).
       unfold rx_reply in Hs. rewrite Hk' in Hs.
-      destruct (wr s (spoof_reply c p)) as [[s1 o] ok] eqn:Hw. inversion Hs; subst s' out; clear Hs.
+      destruct (wr s (reply_of c p)) as [[s1 o] ok] eqn:Hw. inversion Hs; subst s' out; clear Hs.
       destruct (wr_state _ _ _ _ _ Hw) as [W1 [W2 [W3 W4]]]. destruct (wr_state2 _ _ _ _ _ Hw) as [W5 _].
       eexists. split.
-      * f_equal. destruct (wr_cases s (spoof_reply c p)) as [[E _]|[k0 [F0 E]]]; rewrite E in Hw; inversion Hw; subst.
-        -- unfold sp_is_reply_to, spoof_reply. simpl. rewrite !N.eqb_refl. reflexivity.
+      * f_equal. destruct (wr_cases s (reply_of c p)) as [[E _]|[k0 [F0 E]]]; rewrite E in Hw; inversion Hw; subst.
+        -- unfold sp_reply_ok, sp_is_reply_to, reply_of. destruct (sp_is_probe p); simpl; rewrite !N.eqb_refl; reflexivity.
         -- rewrite (failing_of_failn c s sp R); [reflexivity|lia].
       * apply (sim_core c s _ sp _ R); simpl; auto.
-        -- intros F. destruct (wr_cases s (spoof_reply c p)) as [[E _]|[k0 [F0 E]]]; rewrite E in Hw; inversion Hw; subst; simpl; auto. lia.
+        -- intros F. destruct (wr_cases s (reply_of c p)) as [[E _]|[k0 [F0 E]]]; rewrite E in Hw; inversion Hw; subst; simpl; auto. lia.
         -- rewrite W5, Hq. apply nth_error_remove_map.
     + assert (Hk' : nth_error (rxq s) k = None) by (rewrite Hq, nth_error_map, Hk; reflexivity).
       unfold rx_reply in Hs. rewrite Hk' in Hs. inversion Hs; subst. exists sp. split; [reflexivity|exact R].
